@@ -73,10 +73,13 @@ def remote_exception(arg, where):
     return RuntimeError(f'client closed during {where} (injected)')
 
 
-def _yp(kind, info=(), advance=0.0):
+def _yp(kind, info=(), advance=0.0, stall=False):
     s = core.current()
     if s is not None:
-        s.yield_point(kind, info=info, advance=advance)
+        st = {'released': False, 'fired0': s.counters.get('timeout_fired', 0)} if stall else None
+        s.yield_point(kind, info=info, advance=advance, stall=st)
+        if st is not None:
+            s.count('stalled_requests')
 
 
 def _thread_name():
@@ -575,7 +578,9 @@ class SimReadHandle(io.BufferedReader):
         return self._range(offset, n, 'r.pread')
 
     def _range(self, off, n, kind):
-        _yp(kind, info=(self._hid,), advance=LAT_LOCAL_READ)
+        fp = self._fs.faults
+        stall = fp.armed and fp.plan.get(fp.k, (None,))[0] == 'stall'
+        _yp(kind, info=(self._hid,), advance=LAT_LOCAL_READ, stall=stall)
         # the position is looked at *after* the decision point: another thread sharing this handle may have
         # moved it between this thread's seek and its read
         sequential = off is None
@@ -597,6 +602,8 @@ class SimReadHandle(io.BufferedReader):
             avail = bytes(data[off:off + want])
             if fk == 'empty':
                 out = b''
+            elif fk in ('stall', 'exception_seek', 'exception_readall'):
+                out = avail      # (a stalled request answers in full, late; the other two belong to other operations)
             else:   # short: a strict prefix
                 m = min(fault[1], max(0, len(avail) - 1))
                 out = avail[:m]
@@ -686,6 +693,61 @@ class SimReadHandle(io.BufferedReader):
         return f"<SimReadHandle name={self._path!r}>"
 
 
+class SimPlainHandle:
+    """A file-like object that is not an OS file (what io.BytesIO, an fsspec / zip / tar member or any wrapper with
+    read / seek / name is): no descriptor, not an io.BufferedReader.  Served by the same simulated handle."""
+
+    def __init__(self, inner):
+        self._h = inner
+
+    @property
+    def name(self):
+        return self._h.name
+
+    @property
+    def closed(self):
+        return self._h.closed
+
+    mode = 'rb'
+
+    def read(self, n=-1):
+        return self._h.read(n)
+
+    def readinto(self, b):
+        return self._h.readinto(b)
+
+    def seek(self, off, whence=0):
+        return self._h.seek(off, whence)
+
+    def tell(self):
+        return self._h.tell()
+
+    def close(self):
+        self._h.close()
+
+    def fileno(self):
+        raise io.UnsupportedOperation('fileno')
+
+    def readable(self):
+        return True
+
+    def seekable(self):
+        return True
+
+    def writable(self):
+        return False
+
+    def flush(self):
+        pass
+
+    def __enter__(self):
+        return self
+
+    def __exit__(self, *exc):
+        self.close()
+        return False
+
+
 class _SimDownload:
     def __init__(self, blob, k, off, length, fault):
         self._blob = blob
@@ -695,7 +757,8 @@ class _SimDownload:
         self._fault = fault
 
     def readall(self):
-        _yp('b.readall', info=(self._k if self._k is not None else -1,), advance=LAT_BLOB)
+        _yp('b.readall', info=(self._k if self._k is not None else -1,), advance=LAT_BLOB,
+            stall=self._fault is not None and self._fault[0] == 'stall')
         fs = self._blob._fs
         data = fs.files[self._blob._path]
         avail = bytes(data[self._off:self._off + self._len])
@@ -712,8 +775,40 @@ class _SimDownload:
         fs.reqlog.append((fs.call_id, 'blob', self._blob._path, self._off, self._len, len(avail), _thread_name()))
         return avail
 
-    def content_as_bytes(self):
+    def content_as_bytes(self, *a, **k):
         return self.readall()
+
+    # the other ways the SDK's StorageStreamDownloader hands out the same bytes (one answer per download: the
+    # fault, if any, applies to whichever of them is used first)
+    def _once(self):
+        if not hasattr(self, '_answer'):
+            self._answer = self.readall()
+        return self._answer
+
+    def readinto(self, stream):
+        data = self._once()
+        stream.write(data)
+        return len(data)
+
+    def read(self, size=-1):
+        data = self._once()
+        pos = getattr(self, '_rpos', 0)
+        out = data[pos:] if size is None or size < 0 else data[pos:pos + size]
+        self._rpos = pos + len(out)
+        return out
+
+    def chunks(self):
+        data = self._once()
+        for i in range(0, len(data), 4 << 20):
+            yield data[i:i + (4 << 20)]
+
+    @property
+    def size(self):
+        return self._len
+
+    @property
+    def properties(self):
+        return self._blob.get_blob_properties()
 
 
 class SimBlob:
@@ -742,6 +837,15 @@ class SimBlob:
             raise SimInvalidRange('InvalidRange: The range specified is invalid for the current size')
         return _SimDownload(self, k, off, ln, fault)
 
+    def get_blob_properties(self, **kwargs):
+        """size / etag / last_modified of the blob as it is now (a replaced blob has another etag)."""
+        fs = self._fs
+        ino, mseq = fs.meta.get(self._path, (1, 0))
+        return _BlobProperties(len(fs.files[self._path]), f'"0x{ino:04X}{mseq:08X}"', 1.7e9 + mseq * 1e-3, self._path)
+
+    def exists(self, **kwargs):
+        return self._path in self._fs.files
+
     def close(self):
         self.closed = True
 
@@ -750,3 +854,16 @@ class SimBlob:
 
     def __exit__(self, *exc):
         self.close()
+
+
+class _BlobProperties(dict):
+    """BlobProperties look-alike: attribute and key access."""
+
+    def __init__(self, size, etag, mtime, name):
+        import datetime
+        lm = datetime.datetime.fromtimestamp(mtime, datetime.timezone.utc)
+        super().__init__(size=size, etag=etag, last_modified=lm, name=name)
+        self.size = size
+        self.etag = etag
+        self.last_modified = lm
+        self.name = name
